@@ -287,6 +287,8 @@ pub fn run(ctx: &mut Ctx) {
     });
     ctx.require(&r, &["accepted", "rejected"]);
     // hidden state: every ordered pair of operation calls on a fresh thread against the lone call (no model involved)
-    let hist_calls = crate::histpairs::calls_ops(false, &|op| { use crate::optable::Op::*; op.sig().0 == 5 || matches!(op, SToOd | SOracleSubDate | SOracleAddDays | SOracleSubDays) });
+    let hist_calls = crate::histpairs::calls_ops(true, &|op| { use crate::optable::Op::*; op.sig().0 == 5 || matches!(op, SToOd | SOracleSubDate | SOracleAddDays | SOracleSubDays) });
     crate::histpairs::pairwise(ctx, "C16", "oracle_date_operations", hist_calls);
+    let hist_calls_full = crate::histpairs::calls_ops(false, &|op| { use crate::optable::Op::*; op.sig().0 == 5 || matches!(op, SToOd | SOracleSubDate | SOracleAddDays | SOracleSubDays) });
+    crate::histpairs::pairwise_same_thread(ctx, "C16", "oracle_date_operations", hist_calls_full);
 }
